@@ -1062,3 +1062,63 @@ def check_C09(tier, seed):
 
 
 CHECKS["C09"] = check_C09
+
+
+# ---------------------------------------------------------------------- C18
+def check_C18(tier, seed):
+    run = Run("C18", tier, seed)
+    quick = tier == "quick"
+    run.rule = ("for every generated program (G1, G2, G3-variable joins) TLC derives the rewritten variants - operands of "
+                "and_/or_ swapped everywhere, comparisons mirrored (a < b as b > a, literal on the other side), "
+                "in_/contains and function/operator forms toggled, chains re-associated, flattened into one and_/or_ call, "
+                "conjuncts passed as several conditions to entity/set_of, and a composition - and the harness adds a "
+                "permuted domain, a reversed declaration order and a permuted selection list; every variant is judged against "
+                "the denotation and must return the row set of the original; TLC also model-checks that each rewrite preserves "
+                "the denotation (RewriteCheck); non-trivial = original answer neither empty nor everything")
+    run.assumptions = QUERY_ASSUMPTIONS
+    qc = QueryCheck(run)
+    rng = qc.rng
+    run.mc("RewriteCheck", "sound", constants=dict(G="G12", NV=2, LeafLimit=10 if quick else 12, MaxLeaves=2 if quick else 3, MaxNot=1,
+                                                    NeedNot=False), invariants=("RewritesSound",))
+    for nv in (1, 2, 3):
+        full = 45 if nv == 1 else (34 if nv == 2 else 43)
+        progs = run.export("GenQuery", f"G{nv}-rw-bfs", "PROGRW", constants=dict(
+            G="G12", NV=nv, LeafLimit=10 if quick else 20, MaxLeaves=2, MaxNot=1, NeedNot=False), invariants=("ExportRW",), count=False)
+        progs += run.export("GenQuery", f"G{nv}-rw-sim", "PROGRW", constants=dict(
+            G="G12", NV=nv, LeafLimit=full, MaxLeaves=4 if quick else 6, MaxNot=2, NeedNot=False), invariants=("ExportRW",),
+            simulate=500 if quick else 8000, depth=14 if quick else 22)
+        cap = 600 if quick else 12000
+        if len(progs) > cap:
+            progs = rng.sample(progs, cap)
+            run.exhaustive = False
+        for pr in progs:
+            p = pr["orig"]
+            W, doms = _world_and_doms(rng, nv, quick)
+            q0 = mk_query(p, doms)
+            qs, evs = [q0], [drain_ev(1)]
+            seen = {digest(p["cond"])}
+            for v in pr["variants"]:
+                if digest(v) in seen:
+                    continue
+                seen.add(digest(v))
+                qs.append(mk_query(dict(p, cond=v), doms))
+                evs.append(drain_ev(len(qs), eqto=1))
+            # permuted domains
+            doms2 = [rng.sample(d, len(d)) for d in doms]
+            qs.append(mk_query(p, doms2))
+            evs.append(drain_ev(len(qs), eqto=1))
+            # reversed declaration order
+            qd = mk_query(p, doms)
+            qd["declare"] = list(range(len(qd["vars"]), 0, -1))
+            qs.append(qd)
+            evs.append(drain_ev(len(qs), eqto=1))
+            # permuted selection (judged against the denotation only: the columns differ)
+            if p["desc"] == "set_of" and len(p["sel"]) > 1:
+                qs.append(mk_query(dict(p, sel=list(reversed(p["sel"]))), doms))
+                evs.append(drain_ev(len(qs)))
+            qc.add(W, qs, evs)
+    qc.execute(_nontrivial_rows)
+    return run.finish()
+
+
+CHECKS["C18"] = check_C18
